@@ -19,6 +19,29 @@ CLAIMED = {
               "moduli/representation table in props/fields.py, abstract partial products as a sound "
               "over-approximation. Montgomery squarings and gfgen multiplication are deferred (listed in evidence)."),
     ),
+    "C03": dict(
+        engine="polyid",
+        technique="symbolic execution of rustc MIR over an abstract commutative ring; polynomial identities decided by z3 (NIA) with sympy cofactor certificates; native replay",
+        category="model_checking",
+        text=("The point-formula functions of all nine groups are executed from the MIR of the current tree over an "
+              "abstract ring with free projective scalings; z3 decides that outputs satisfy the curve equation and "
+              "equal the affine group law in the generic, P=Q, P=-Q, neutral and low-order cases. Unbounded in the "
+              "operands (identities over Z[x]); bounded in xdouble/mul_small counts."),
+        design_ref="DESIGN.md 2.3, 3 C03; engines/polyid/NOTES.md",
+        note=("Trusted: field operations meet C01 (abstract ring), published completeness/non-vanishing facts "
+              "(d non-square, RCB completeness), sympy only as untrusted certificate generator; constants checked as ground facts."),
+    ),
+    "C05": dict(
+        engine="llsym",
+        technique="symbolic execution of optimized LLVM IR; LIA encoding; z3 decides status/value/canonicity for all byte strings per length",
+        category="model_checking",
+        text=("encode, strict decode_ct and decode_reduce of every prime-field/scalar type of the default backend are "
+              "executed symbolically with all bytes/limbs symbolic at each length in the bound; z3 decides canonicity "
+              "(< q), status-word exactness, zero-on-failure, length rejection and value congruence."),
+        design_ref="DESIGN.md 3 C05, 8",
+        note=("Lengths bounded (strict: 0,1,L-1,L,L+1,2L; reducing: up to 97 quick / 161 thorough). Montgomery strict-decode "
+              "value obligation and long Montgomery reducing decodes are not posed (listed in evidence). Binary fields outside."),
+    ),
 }
 
 NA_REASON = "check not built yet (work in progress; see DESIGN.md section 8)"
@@ -51,7 +74,9 @@ man = {
         "add_only": True,
     },
     "engines": [
-        {"name": "llsym", "path": "engines/llsym", "serves_properties": ["C01"],
+        {"name": "polyid", "path": "engines/polyid", "serves_properties": ["C03"],
+         "kind_free_text": "interpreter over rustc MIR executing point formulas over an abstract ring; z3 decides polynomial identities"},
+        {"name": "llsym", "path": "engines/llsym", "serves_properties": ["C01", "C05"],
          "kind_free_text": "symbolic executor over rustc's optimized LLVM IR (concrete control, symbolic data) with bit-vector and integer SMT encodings; z3/cvc5 decide"},
     ],
     "checks": checks,
